@@ -13,6 +13,7 @@ import (
 )
 
 type Exec struct {
+	coverDone    map[*AtSpec]bool
 	cntDeclared  map[string]bool
 	eng          *Engine
 	u            *Unit
@@ -42,9 +43,11 @@ type closureVal struct {
 type loopCtx struct {
 	i     string // $i term
 	entry *State // state at loop entry (before the head havoc)
+	head  *State // state at the head of the iteration being executed
 }
 
 type Frame struct {
+	inSnapEnv bool
 	x        *Exec
 	pkg      *packages.Package
 	info     *types.Info
